@@ -77,7 +77,7 @@ def link_roots_to_nearest_(
         vs = df[[names.x, names.y, names.z]] - row[[names.x, names.y, names.z]]
         dis = np.linalg.norm(vs.to_numpy(), axis=1)
         subtree = dsu == dsu[i]  # type: ignore
-        dis = np.where(subtree, np.Infinity, dis)  # avoid link to same tree
+        dis = np.where(subtree, np.inf, dis)  # avoid link to same tree
         dsu = np.where(subtree, dsu[dis.argmin()], dsu)  # merge set
         df.loc[i, names.pid] = df[names.id].iloc[dis.argmin()]  # type: ignore
 
@@ -154,8 +154,7 @@ def reset_index_(df: pd.DataFrame, *, names: Optional[SWCNames] = None) -> None:
     root_loc = roots.argmax()
     root_id = df.loc[root_loc, names.id]  # type:ignore
     df[names.id] = df[names.id] - root_id
-    df[names.pid] = df[names.pid] - root_id
-    df.loc[root_loc, names.pid] = -1  # type:ignore
+    df[names.pid] = np.where(df[names.pid] == -1, -1, df[names.pid] - root_id)
 
 
 def _copy_and_apply(fn: Callable, df: pd.DataFrame, *args, **kwargs):
